@@ -19,6 +19,7 @@ import (
 	"go/constant"
 	"go/token"
 	"go/types"
+	"sort"
 	"strings"
 
 	"wv/core"
@@ -526,7 +527,7 @@ type c13Sched struct {
 	name     string
 	pre      int    // recursive descents before the node's own slot
 	post     int    // … after it
-	argClass string // what the recursion passes for the placement flag
+	argClass string // what the recursion passes for the placement flag: "before: X; after: Y"
 	ok       bool
 }
 
@@ -691,7 +692,13 @@ func (s *c13) treeSchedule(rule, recv, name string) (sc c13Sched) {
 			flagIdx = i
 		}
 	}
-	classes := map[string]bool{}
+	classes := map[string]map[string]bool{"before": {}, "after": {}}
+	var selfNode ast.Node
+	for _, n := range env.nodes {
+		if self(n) {
+			selfNode = n
+		}
+	}
 	badNode := []string{}
 	nCalls := 0
 	ast.Inspect(fl.F.Decl.Body, func(n ast.Node) bool {
@@ -711,7 +718,14 @@ func (s *c13) treeSchedule(rule, recv, name string) (sc c13Sched) {
 				cls = "other: " + core.Src(s.g.Fset, a)
 			}
 		}
-		classes[cls] = true
+		// phase of this call: before the node's own slot (its CFG node reaches the slot) or after it
+		if cn := env.nodeOf(call); cn != nil {
+			if env.reaches(cn, func(m ast.Node) bool { return m == selfNode }, nil) {
+				classes["before"][cls] = true
+			} else {
+				classes["after"][cls] = true
+			}
+		}
 		// the node operand: receiver of a method value, or the pointer argument
 		var operand ast.Expr
 		if node == fl.Recv() {
@@ -744,15 +758,20 @@ func (s *c13) treeSchedule(rule, recv, name string) (sc c13Sched) {
 		}
 		return true
 	})
-	var cl []string
-	for x := range classes {
-		cl = append(cl, x)
+	var phases []string
+	for _, ph := range []string{"before", "after"} {
+		var cl []string
+		for x := range classes[ph] {
+			cl = append(cl, x)
+		}
+		sort.Strings(cl)
+		if len(cl) != 1 {
+			phases = append(phases, ph+": mixed ("+strings.Join(cl, " / ")+")")
+		} else {
+			phases = append(phases, ph+": "+cl[0])
+		}
 	}
-	if len(cl) == 1 {
-		sc.argClass = cl[0]
-	} else {
-		sc.argClass = "mixed: " + strings.Join(cl, " / ")
-	}
+	sc.argClass = strings.Join(phases, "; ")
 	c.Check(len(badNode) == 0, rule, sc.name+"[descent operand]", "the recursion descends into the elements of node.children themselves (by index: calcEncodedSize stores the COffset into the element)", nCalls, strings.Join(badNode, "; "))
 	sc.ok = ok1 && ok2 && len(badNode) == 0
 	return
@@ -766,7 +785,7 @@ func (s *c13) treeLayout() {
 		return
 	}
 	claim := "calcEncodedSize and writeIndex follow the same schedule: same number of descents before / after the node's slot and the same placement flag handed to the sub-branches, so that the COffset computed for a node is the position at which it is written (two-level trees are covered by the package's tests; a difference in what is handed down only shows in trees of three or more levels, i.e. more than 65025 chunks)"
-	same := a.pre == b.pre && a.post == b.post && a.pre >= 1 && a.post >= 1 && a.argClass == b.argClass && !strings.HasPrefix(a.argClass, "mixed") && !strings.HasPrefix(a.argClass, "other")
+	same := a.pre == b.pre && a.post == b.post && a.pre >= 1 && a.post >= 1 && a.argClass == b.argClass && !strings.Contains(a.argClass, "mixed") && !strings.Contains(a.argClass, "other")
 	c.Check(same, "T.tree.layout", relRac+"[calcEncodedSize ~ writeIndex]", claim, a.pre+a.post+b.pre+b.post,
 		fmt.Sprintf("%s: %d before / %d after, passes %s; %s: %d before / %d after, passes %s", a.name, a.pre, a.post, a.argClass, b.name, b.pre, b.post, b.argClass))
 	c.Floor("T.tree.layout", "recursive descents in calcEncodedSize and writeIndex", a.pre+a.post+b.pre+b.post, 4)
